@@ -40,6 +40,8 @@ type HHist struct {
 	Ops []HOp `json:"ops"`
 }
 
+var errNoHook = fmt.Errorf("hook not available")
+
 type hworld struct {
 	w      *world
 	cfg    params.YouParams
@@ -90,7 +92,11 @@ func (h *hworld) te(from common.Address, action staking.ActionType, tx interface
 		return err
 	}
 	h.nonce++
-	return staking.VerifC08TakeEffect(h.w.st, &h.cfg, from, action, payload, h.height, h.nonce)
+	ok, err := hookTE(h.w.st, &h.cfg, from, action, payload, h.height, h.nonce)
+	if !ok {
+		return errNoHook
+	}
+	return err
 }
 
 // exec runs one step; skipped = the step does not apply to the current state (kept out of generated histories).
@@ -145,16 +151,22 @@ func (h *hworld) exec(o HOp) (skipped bool, err error) {
 			return true, nil
 		}
 		typ := []string{staking.EvidenceTypeDoubleSign, staking.EvidenceTypeInactive, staking.EvidenceTypeDoubleSignV5}[int(o.N)%3]
-		staking.VerifC08Penalize(st, &h.cfg, typ, va, amt, h.height)
+		if !hookPenalize(st, &h.cfg, typ, va, amt, h.height) {
+			return true, nil
+		}
 	case "inactivity":
 		h.height += uint64(o.N)
-		staking.VerifC08Inactivity(st, &h.cfg, h.height)
+		if !hookInactivity(st, &h.cfg, h.height) {
+			return true, nil
+		}
 	case "rewards":
 		// the proposer exists and is online (rewardsToPool exits the process otherwise)
 		if v == nil || !v.IsOnline() {
 			return true, nil
 		}
-		staking.VerifC08RewardsToPool(st, &h.cfg, va, amt, h.height)
+		if !hookRewards(st, &h.cfg, va, amt, h.height) {
+			return true, nil
+		}
 	case "distribute":
 		s, _ := st.GetValidatorsStat()
 		for role := 1; role <= 3; role++ {
@@ -163,14 +175,20 @@ func (h *hworld) exec(o HOp) (skipped bool, err error) {
 				return true, nil
 			}
 		}
-		if err := staking.VerifC08DistributeRewards(st, &h.cfg, h.height); err != nil && !strings.Contains(err.Error(), "empty stake") {
+		ok, err := hookDistribute(st, &h.cfg, h.height)
+		if !ok {
+			return true, nil
+		}
+		if err != nil && !strings.Contains(err.Error(), "empty stake") {
 			return false, err
 		}
 	case "settle":
 		if v == nil {
 			return true, nil
 		}
-		staking.VerifC08Settle(st, &h.cfg, va, h.height)
+		if !hookSettle(st, &h.cfg, va, h.height) {
+			return true, nil
+		}
 	case "root":
 		st.IntermediateRoot(true)
 		h.snaps = nil
@@ -217,6 +235,13 @@ func (h *hworld) oracleAll() (fail, class string) {
 
 // step executes one op with panic capture and runs the oracle.
 func (h *hworld) step(i int, o HOp) (skipped bool, fail, class string) {
+	if sk, f, cl := h.step0(i, o); !(f != "" && strings.Contains(f, errNoHook.Error())) {
+		return sk, f, cl
+	}
+	return true, "", "" // the hook this step needs is not part of the build
+}
+
+func (h *hworld) step0(i int, o HOp) (skipped bool, fail, class string) {
 	defer func() {
 		if r := recover(); r != nil {
 			fail, class = fmt.Sprintf("step %d (%s): panic: %v", i, o.K, r), ""
